@@ -1821,8 +1821,9 @@ func (this *decodingTask) decode(res *decodingTaskResult) {
 		// Unblock other tasks
 		if res.err != nil || (res.decoded == 0 && res.skipped == false) {
 			atomic.StoreInt32(this.processedBlockID, _CANCEL_TASKS_ID)
-		} else if atomic.LoadInt32(this.processedBlockID) == this.currentBlockID-1 {
-			atomic.StoreInt32(this.processedBlockID, this.currentBlockID)
+		} else {
+			// Never overwrite a cancel request posted by another task
+			atomic.CompareAndSwapInt32(this.processedBlockID, this.currentBlockID-1, this.currentBlockID)
 		}
 
 		simhook.Exit(res)
@@ -1891,8 +1892,10 @@ func (this *decodingTask) decode(res *decodingTaskResult) {
 	simhook.Point("dec.publish", int(this.currentBlockID))
 
 	// After completion of the bitstream reading, increment the block id.
-	// It unblocks the task processing the next block (if any)
-	atomic.StoreInt32(this.processedBlockID, this.currentBlockID)
+	// It unblocks the task processing the next block (if any).
+	// Never overwrite a cancel request posted by another task: a task that
+	// has seen the cancel has exited and the tasks after it would wait forever.
+	atomic.CompareAndSwapInt32(this.processedBlockID, this.currentBlockID-1, this.currentBlockID)
 
 	simhook.Point("dec.published", int(this.currentBlockID))
 
